@@ -27,6 +27,7 @@ struct AllocSim {
     uint64_t next_ordinal = 0;   // ordinal of the next allocation request in this call
     int64_t fail_at = -1;        // position to fail (-1: none)
     int64_t fail_at2 = -1;       // second position to fail as well ("pair" policy)
+    int mmap_errno = ENOMEM;     // what a failing mmap reports
     bool fail_from = false;      // fail every request >= fail_at
     uint64_t fired = 0;
     uint64_t epoch = 0;          // call counter
@@ -116,7 +117,7 @@ int h_posix_memalign(void **out, size_t al, size_t n) {
 void *h_mmap(void *addr, size_t len, int prot, int flags, int fd, off_t off) {
     int d = simos_suspend();
     void *p = MAP_FAILED;
-    if (A.counting && A.should_fail('M')) errno = ENOMEM;
+    if (A.counting && A.should_fail('M')) errno = A.mmap_errno; // ENOMEM, or EAGAIN (locked-memory limit: mmap(2))
     else { p = simos_real_mmap(addr, len, prot, flags, fd, off); if (p != MAP_FAILED && A.counting) A.add(p, len, 'M'); }
     simos_resume(d);
     return p;
@@ -157,6 +158,7 @@ struct PlanT {
     Json pk;
     uint64_t content_seed = 0;
     bool pairs = false; // additionally fail every pair of positions (i, j)
+    bool mmap_eagain = false; // a failing mmap reports EAGAIN instead of ENOMEM
     std::vector<Op> ops;
 };
 
@@ -380,6 +382,8 @@ struct Exec {
     }
 
     Result run() {
+        A.mmap_errno = plan.mmap_eagain ? EAGAIN : ENOMEM;
+        res.count(std::string("knob.mmap_errno=") + (plan.mmap_eagain ? "EAGAIN" : "ENOMEM"));
         for (size_t i = 0; i < plan.ops.size() && !res.violated; i++) { step = (int) i; do_op(plan.ops[i], i); }
         A.fired_kinds.clear();
         res.digest = dg.value();
@@ -433,6 +437,7 @@ struct C20 {
         p.pk = pk;
         p.content_seed = mix64(rs, 0xc20);
         p.pairs = thorough ? r.chance(1, 2) : r.chance(1, 6);
+        p.mmap_eagain = r.chance(1, 3);
         size_t nops = (size_t) r.range(1, 4);
         for (size_t i = 0; i < nops; i++) {
             Op op;
@@ -459,7 +464,7 @@ struct C20 {
 
     static Json to_json(const Plan &p) {
         Json j = Json::object();
-        j["knobs"] = p.pk; j["content_seed"] = p.content_seed; j["pairs"] = p.pairs;
+        j["knobs"] = p.pk; j["content_seed"] = p.content_seed; j["pairs"] = p.pairs; j["mmap_eagain"] = p.mmap_eagain;
         Json ops = Json::array();
         for (auto &o : p.ops) {
             Json q = Json::object();
@@ -473,7 +478,7 @@ struct C20 {
     }
     static Plan from_json(const Json &j) {
         Plan p;
-        p.pk = j.at("knobs"); p.content_seed = j.at("content_seed").u64(); p.pairs = j.at("pairs").boolean();
+        p.pk = j.at("knobs"); p.content_seed = j.at("content_seed").u64(); p.pairs = j.at("pairs").boolean(); p.mmap_eagain = j.at("mmap_eagain").boolean();
         for (auto &q : j.at("ops").a) {
             Op o;
             for (int i = 0; i < A_NAPI; i++) if (q.at("api").str() == api_name[i]) o.api = i;
@@ -495,6 +500,7 @@ struct C20 {
         std::vector<Plan> out;
         if (p.pk.at("cpu_disable").u64() != 0) { Plan c = p; c.pk["cpu_disable"] = 0u; out.push_back(c); }
         if (p.pairs) { Plan c = p; c.pairs = false; out.push_back(c); }
+        if (p.mmap_eagain) { Plan c = p; c.mmap_eagain = false; out.push_back(c); }
         for (size_t i = 0; i < p.ops.size(); i++) {
             const Op &o = p.ops[i];
             if (o.only_pos < 0) for (int pos = 0; pos < 10; pos++) { Plan c = p; c.ops[i].only_pos = pos; out.push_back(c); }
